@@ -164,6 +164,76 @@ func genRewriter(r *mon.Rng) oracle.C01Rewriter {
 	return rw
 }
 
+// filterHints collects material from the table's own filters, so that selective filters are hit.
+func filterHints(m *oracle.C01Table) []string {
+	var hints []string
+	addHints := func(f oracle.C01Filter) {
+		for _, s := range []string{f.Prefix, f.NotPrefix, f.Sub, f.NotSub} {
+			if s != "" {
+				hints = append(hints, s)
+			}
+		}
+	}
+	for _, f := range m.Blacklist {
+		addHints(f)
+	}
+	for _, a := range m.Aggs {
+		addHints(a.Filter)
+	}
+	for _, rt := range m.Routes {
+		addHints(rt.Filter)
+		for _, d := range rt.Dests {
+			addHints(d.Filter)
+		}
+	}
+	return hints
+}
+
+// hintedName is a generated name, a third of the time combined with one of the hints.
+func hintedName(r *mon.Rng, hints []string) string {
+	name := genName(r)
+	if len(hints) > 0 && r.Chance(1, 3) {
+		h := r.Pick(hints)
+		switch r.Intn(3) {
+		case 0:
+			name = h + name
+		case 1:
+			name = name + h
+		default:
+			name = h + "." + name
+		}
+		name = strings.Trim(strings.Replace(name, "..", ".", -1), ".")
+		if name == "" {
+			name = "a"
+		}
+	}
+	return name
+}
+
+// genLine makes one line (about 10% invalid ones) with the next timestamp.
+func genLine(r *mon.Rng, hints []string, ts *int) string {
+	*ts++
+	name := hintedName(r, hints)
+	val := fmt.Sprintf("%d.%d", r.Intn(1000), r.Intn(10))
+	switch x := r.Intn(100); {
+	case x < 2:
+		return fmt.Sprintf("%s %s", name, val) // two fields
+	case x < 4:
+		return fmt.Sprintf("%s %s %d extra", name, val, *ts)
+	case x < 6:
+		return fmt.Sprintf("%s abc %d", name, *ts)
+	case x < 8:
+		return fmt.Sprintf("%s %s t%d", name, val, *ts)
+	case x < 10:
+		return fmt.Sprintf("%s\x00%s %s %d", name, genNode(r), val, *ts)
+	case x < 13:
+		return fmt.Sprintf("%s\t%s  %d", name, val, *ts)
+	case x < 15:
+		return fmt.Sprintf(" %s %s %d ", name, val, *ts)
+	}
+	return fmt.Sprintf("%s %s %d", name, val, *ts)
+}
+
 func gen(seed uint64, idx int) tcase {
 	r := mon.NewRng(seed, 1, uint64(idx))
 	c := tcase{Index: idx}
@@ -268,64 +338,8 @@ func gen(seed uint64, idx int) tcase {
 	// lines
 	nSeq, nCon := mon.N(36, 120), mon.N(24, 80)
 	ts := 1600000000
-	// material from the table's own filters, so that selective filters are hit
-	var hints []string
-	addHints := func(f oracle.C01Filter) {
-		for _, s := range []string{f.Prefix, f.NotPrefix, f.Sub, f.NotSub} {
-			if s != "" {
-				hints = append(hints, s)
-			}
-		}
-	}
-	for _, f := range m.Blacklist {
-		addHints(f)
-	}
-	for _, a := range m.Aggs {
-		addHints(a.Filter)
-	}
-	for _, rt := range m.Routes {
-		addHints(rt.Filter)
-		for _, d := range rt.Dests {
-			addHints(d.Filter)
-		}
-	}
-	mk := func() string {
-		ts++
-		name := genName(r)
-		if len(hints) > 0 && r.Chance(1, 3) {
-			h := r.Pick(hints)
-			switch r.Intn(3) {
-			case 0:
-				name = h + name
-			case 1:
-				name = name + h
-			default:
-				name = h + "." + name
-			}
-			name = strings.Trim(strings.Replace(name, "..", ".", -1), ".")
-			if name == "" {
-				name = "a"
-			}
-		}
-		val := fmt.Sprintf("%d.%d", r.Intn(1000), r.Intn(10))
-		switch x := r.Intn(100); {
-		case x < 2:
-			return fmt.Sprintf("%s %s", name, val) // two fields
-		case x < 4:
-			return fmt.Sprintf("%s %s %d extra", name, val, ts)
-		case x < 6:
-			return fmt.Sprintf("%s abc %d", name, ts)
-		case x < 8:
-			return fmt.Sprintf("%s %s t%d", name, val, ts)
-		case x < 10:
-			return fmt.Sprintf("%s\x00%s %s %d", name, genNode(r), val, ts)
-		case x < 13:
-			return fmt.Sprintf("%s\t%s  %d", name, val, ts)
-		case x < 15:
-			return fmt.Sprintf(" %s %s %d ", name, val, ts)
-		}
-		return fmt.Sprintf("%s %s %d", name, val, ts)
-	}
+	hints := filterHints(m)
+	mk := func() string { return genLine(r, hints, &ts) }
 	for i := 0; i < nSeq; i++ {
 		c.SeqLines = append(c.SeqLines, mk())
 	}
@@ -474,59 +488,77 @@ func build(c *tcase, r *mon.Rng) *realTable {
 		rt.aggKeys = append(rt.aggKeys, mon.KeyAggIn(ag.Key))
 	}
 	for _, mr := range c.Model.Routes {
-		var keys []string
-		if mr.Type == oracle.C01Capture {
-			cr := mon.NewCaptureRoute(mr.Key, toMatcher(mr.Filter), nil)
-			api("Table.AddRoute(capture %s {%s})", mr.Key, mr.Filter.C01Opts())
-			t.AddRoute(cr)
-			rt.caps = append(rt.caps, cr)
-			rt.destKeys = append(rt.destKeys, nil)
-			continue
+		rt.addRoute(c, mr, mr.Type != oracle.C01Capture && r.Chance(1, 5))
+	}
+	return rt
+}
+
+// addRoute creates the route mr at the end of the real table (by an addRoute command or by the constructors that
+// command ends up calling) and appends its observation handles to rt.caps / rt.destKeys.
+func (rt *realTable) addRoute(c *tcase, mr oracle.C01Route, byCommand bool) {
+	t := rt.t
+	cmd := func(s string) {
+		c.Cmds = append(c.Cmds, s)
+		nByCommand++
+		if err := mon.Apply(t, s); err != nil {
+			panic(fmt.Sprintf("command %q: %v", s, err))
 		}
-		s := "addRoute " + mr.Type + " " + mr.Key
-		if o := mr.Filter.C01Opts(); o != "" {
+	}
+	api := func(format string, a ...interface{}) {
+		c.Cmds = append(c.Cmds, fmt.Sprintf(format, a...))
+		nByAPI++
+	}
+	var keys []string
+	if mr.Type == oracle.C01Capture {
+		cr := mon.NewCaptureRoute(mr.Key, toMatcher(mr.Filter), nil)
+		api("Table.AddRoute(capture %s {%s})", mr.Key, mr.Filter.C01Opts())
+		t.AddRoute(cr)
+		rt.caps = append(rt.caps, cr)
+		rt.destKeys = append(rt.destKeys, nil)
+		return
+	}
+	s := "addRoute " + mr.Type + " " + mr.Key
+	if o := mr.Filter.C01Opts(); o != "" {
+		s += " " + o
+	}
+	for _, d := range mr.Dests {
+		s += "  " + d.Addr
+		if o := d.Filter.C01Opts(); o != "" {
 			s += " " + o
 		}
+		s += " spool=false reconn=3600000"
+		keys = append(keys, mon.KeyDestDropNoConn(mon.DestKey(mr.Key, d.Addr)))
+	}
+	if byCommand {
+		cmd(s)
+	} else {
+		// the constructors the command ends up calling, with the command's defaults
+		var ds []*destination.Destination
 		for _, d := range mr.Dests {
-			s += "  " + d.Addr
-			if o := d.Filter.C01Opts(); o != "" {
-				s += " " + o
-			}
-			s += " spool=false reconn=3600000"
-			keys = append(keys, mon.KeyDestDropNoConn(mon.DestKey(mr.Key, d.Addr)))
-		}
-		if r.Chance(1, 5) {
-			cmd(s)
-		} else {
-			// the constructors the command ends up calling, with the command's defaults
-			var ds []*destination.Destination
-			for _, d := range mr.Dests {
-				x, err := destination.New(mr.Key, toMatcher(d.Filter), d.Addr, t.GetSpoolDir(), false, false, time.Second, time.Hour, 30000, 2000000, 10000, 200*1024*1024, 10000, time.Second, 500*time.Microsecond, 10*time.Microsecond)
-				if err != nil {
-					panic(err)
-				}
-				ds = append(ds, x)
-			}
-			var rr route.Route
-			var err error
-			switch mr.Type {
-			case oracle.C01SendAllMatch:
-				rr, err = route.NewSendAllMatch(mr.Key, toMatcher(mr.Filter), ds)
-			case oracle.C01SendFirstMatch:
-				rr, err = route.NewSendFirstMatch(mr.Key, toMatcher(mr.Filter), ds)
-			default:
-				rr, err = route.NewConsistentHashing(mr.Key, toMatcher(mr.Filter), ds)
-			}
+			x, err := destination.New(mr.Key, toMatcher(d.Filter), d.Addr, t.GetSpoolDir(), false, false, time.Second, time.Hour, 30000, 2000000, 10000, 200*1024*1024, 10000, time.Second, 500*time.Microsecond, 10*time.Microsecond)
 			if err != nil {
 				panic(err)
 			}
-			api("Table.AddRoute(route.New<type>(destination.New ...)) equivalent of: %s", s)
-			t.AddRoute(rr)
+			ds = append(ds, x)
 		}
-		rt.caps = append(rt.caps, nil)
-		rt.destKeys = append(rt.destKeys, keys)
+		var rr route.Route
+		var err error
+		switch mr.Type {
+		case oracle.C01SendAllMatch:
+			rr, err = route.NewSendAllMatch(mr.Key, toMatcher(mr.Filter), ds)
+		case oracle.C01SendFirstMatch:
+			rr, err = route.NewSendFirstMatch(mr.Key, toMatcher(mr.Filter), ds)
+		default:
+			rr, err = route.NewConsistentHashing(mr.Key, toMatcher(mr.Filter), ds)
+		}
+		if err != nil {
+			panic(err)
+		}
+		api("Table.AddRoute(route.New<type>(destination.New ...)) equivalent of: %s", s)
+		t.AddRoute(rr)
 	}
-	return rt
+	rt.caps = append(rt.caps, nil)
+	rt.destKeys = append(rt.destKeys, keys)
 }
 
 // ---------------------------------------------------------------- observation
@@ -618,6 +650,78 @@ func sameFields(got string, want []string) bool {
 		}
 	}
 	return true
+}
+
+// attribute compares what one dispatched line did - the table counters and the per-destination hand-off counters
+// between prev and cur, and what the capture routes were handed (taken here) - with the model's outcome o.
+// rt.caps / rt.destKeys are parallel to m.Routes. label names the case and the line in the messages.
+func (rt *realTable) attribute(m *oracle.C01Table, label string, o *oracle.C01Outcome, prev, cur obs, add func(sig, msg string, w interface{}), w func(observed interface{}) interface{}) {
+	cause, why := "", fmt.Sprintf("its filter rejects the name after rewriting %q", o.Name)
+	switch {
+	case !o.Valid:
+		cause, why = "invalid-", "the line is invalid"
+	case o.Blacklisted:
+		cause, why = "blacklisted-", "the name is blacklisted"
+	case o.Consumed >= 0:
+		cause, why = "dropraw-consumed-", fmt.Sprintf("drop-raw aggregation #%d consumed it", o.Consumed)
+	}
+	if d := cur.in - prev.in; d != 1 {
+		add("in-count", fmt.Sprintf("%s: direction=in moved by %d", label, d), w(d))
+	}
+	if d, e := cur.invalid-prev.invalid, b2i(!o.Valid); d != e {
+		add("invalid-count", fmt.Sprintf("%s: type=invalid moved by %d, expected %d", label, d, e), w(d))
+	}
+	if d, e := cur.black-prev.black, b2i(o.Blacklisted); d != e {
+		add("blacklist-count", fmt.Sprintf("%s: direction=blacklist moved by %d, expected %d", label, d, e), w(d))
+	}
+	if d, e := cur.unroutable-prev.unroutable, b2i(o.Unroutable); d != e {
+		add("unroutable-count", fmt.Sprintf("%s (name after rewriting %q, accepted by %d routes): direction=unroutable moved by %d, expected %d", label, o.Name, o.NRoutes, d, e), w(d))
+	}
+	for i, mr := range m.Routes {
+		if cr := rt.caps[i]; cr != nil {
+			got := cr.Take()
+			lines := make([]string, len(got))
+			for k := range got {
+				lines[k] = string(got[k].Copy)
+			}
+			switch {
+			case o.Routes[i] && len(got) == 0:
+				add("route-missed", fmt.Sprintf("%s: route %s {%s} accepts name %q but was not handed the line", label, mr.Key, mr.Filter.C01Opts(), o.Name), w(lines))
+			case o.Routes[i] && len(got) > 1:
+				add("route-duplicate", fmt.Sprintf("%s: route %s handed the line %d times", label, mr.Key, len(got)), w(lines))
+			case !o.Routes[i] && len(got) > 0:
+				add(cause+"route-extra", fmt.Sprintf("%s: route %s {%s} must not receive it (%s) but was handed %q", label, mr.Key, mr.Filter.C01Opts(), why, lines), w(lines))
+			case o.Routes[i] && !sameFields(lines[0], o.Fields):
+				add("route-wrong-line", fmt.Sprintf("%s: route %s was handed %q, expected fields %q", label, mr.Key, lines[0], o.Fields), w(lines))
+			}
+			continue
+		}
+		deltas := make([]int64, len(mr.Dests))
+		var sum int64
+		for j := range mr.Dests {
+			deltas[j] = cur.dests[i][j] - prev.dests[i][j]
+			sum += deltas[j]
+		}
+		if mr.Type == oracle.C01ConsistentHashing {
+			if e := b2i(o.Routes[i]); sum != e {
+				sig := "hash-not-exactly-one"
+				if e == 0 {
+					sig = cause + "dest-extra:" + mr.Type
+				}
+				add(sig, fmt.Sprintf("%s (name after rewriting %q): consistentHashing route %s {%s}: %d destinations account for the line (per destination %v), expected %d", label, o.Name, mr.Key, mr.Filter.C01Opts(), sum, deltas, e), w(deltas))
+			}
+			continue
+		}
+		for j, d := range mr.Dests {
+			e := int64(o.Dests[i][j])
+			switch {
+			case deltas[j] < e:
+				add("dest-missed:"+mr.Type, fmt.Sprintf("%s: %s route %s destination #%d %s {%s} must be handed name %q, hand-off counter moved by %d (route destinations %v)", label, mr.Type, mr.Key, j, d.Addr, d.Filter.C01Opts(), o.Name, deltas[j], deltas), w(deltas))
+			case deltas[j] > e:
+				add(cause+"dest-extra:"+mr.Type, fmt.Sprintf("%s: %s route %s destination #%d %s {%s} must not be handed it (%s; expected per destination %v), hand-off counter moved by %d (observed %v)", label, mr.Type, mr.Key, j, d.Addr, d.Filter.C01Opts(), destWhy(why, *o), o.Dests[i], deltas[j], deltas), w(deltas))
+			}
+		}
+	}
 }
 
 type stats struct {
@@ -737,72 +841,7 @@ func runCase(res *mon.Result, c *tcase, st *stats) (ok bool) {
 		}
 		cur := rt.read()
 		w := func(observed interface{}) interface{} { return witness(line, &o, observed) }
-		cause, why := "", fmt.Sprintf("its filter rejects the name after rewriting %q", o.Name)
-		switch {
-		case !o.Valid:
-			cause, why = "invalid-", "the line is invalid"
-		case o.Blacklisted:
-			cause, why = "blacklisted-", "the name is blacklisted"
-		case o.Consumed >= 0:
-			cause, why = "dropraw-consumed-", fmt.Sprintf("drop-raw aggregation #%d consumed it", o.Consumed)
-		}
-		if d := cur.in - prev.in; d != 1 {
-			add("in-count", fmt.Sprintf("table %d line %d %q: direction=in moved by %d", c.Index, li, line, d), w(d))
-		}
-		if d, e := cur.invalid-prev.invalid, b2i(!o.Valid); d != e {
-			add("invalid-count", fmt.Sprintf("table %d line %d %q: type=invalid moved by %d, expected %d", c.Index, li, line, d, e), w(d))
-		}
-		if d, e := cur.black-prev.black, b2i(o.Blacklisted); d != e {
-			add("blacklist-count", fmt.Sprintf("table %d line %d %q: direction=blacklist moved by %d, expected %d", c.Index, li, line, d, e), w(d))
-		}
-		if d, e := cur.unroutable-prev.unroutable, b2i(o.Unroutable); d != e {
-			add("unroutable-count", fmt.Sprintf("table %d line %d %q (name after rewriting %q, accepted by %d routes): direction=unroutable moved by %d, expected %d", c.Index, li, line, o.Name, o.NRoutes, d, e), w(d))
-		}
-		for i, mr := range m.Routes {
-			if cr := rt.caps[i]; cr != nil {
-				got := cr.Take()
-				lines := make([]string, len(got))
-				for k := range got {
-					lines[k] = string(got[k].Copy)
-				}
-				switch {
-				case o.Routes[i] && len(got) == 0:
-					add("route-missed", fmt.Sprintf("table %d line %d %q: route %s {%s} accepts name %q but was not handed the line", c.Index, li, line, mr.Key, mr.Filter.C01Opts(), o.Name), w(lines))
-				case o.Routes[i] && len(got) > 1:
-					add("route-duplicate", fmt.Sprintf("table %d line %d %q: route %s handed the line %d times", c.Index, li, line, mr.Key, len(got)), w(lines))
-				case !o.Routes[i] && len(got) > 0:
-					add(cause+"route-extra", fmt.Sprintf("table %d line %d %q: route %s {%s} must not receive it (%s) but was handed %q", c.Index, li, line, mr.Key, mr.Filter.C01Opts(), why, lines), w(lines))
-				case o.Routes[i] && !sameFields(lines[0], o.Fields):
-					add("route-wrong-line", fmt.Sprintf("table %d line %d %q: route %s was handed %q, expected fields %q", c.Index, li, line, mr.Key, lines[0], o.Fields), w(lines))
-				}
-				continue
-			}
-			deltas := make([]int64, len(mr.Dests))
-			var sum int64
-			for j := range mr.Dests {
-				deltas[j] = cur.dests[i][j] - prev.dests[i][j]
-				sum += deltas[j]
-			}
-			if mr.Type == oracle.C01ConsistentHashing {
-				if e := b2i(o.Routes[i]); sum != e {
-					sig := "hash-not-exactly-one"
-					if e == 0 {
-						sig = cause + "dest-extra:" + mr.Type
-					}
-					add(sig, fmt.Sprintf("table %d line %d %q (name after rewriting %q): consistentHashing route %s {%s}: %d destinations account for the line (per destination %v), expected %d", c.Index, li, line, o.Name, mr.Key, mr.Filter.C01Opts(), sum, deltas, e), w(deltas))
-				}
-				continue
-			}
-			for j, d := range mr.Dests {
-				e := int64(o.Dests[i][j])
-				switch {
-				case deltas[j] < e:
-					add("dest-missed:"+mr.Type, fmt.Sprintf("table %d line %d %q: %s route %s destination #%d %s {%s} must be handed name %q, hand-off counter moved by %d (route destinations %v)", c.Index, li, line, mr.Type, mr.Key, j, d.Addr, d.Filter.C01Opts(), o.Name, deltas[j], deltas), w(deltas))
-				case deltas[j] > e:
-					add(cause+"dest-extra:"+mr.Type, fmt.Sprintf("table %d line %d %q: %s route %s destination #%d %s {%s} must not be handed it (%s; expected per destination %v), hand-off counter moved by %d (observed %v)", c.Index, li, line, mr.Type, mr.Key, j, d.Addr, d.Filter.C01Opts(), destWhy(why, o), o.Dests[i], deltas[j], deltas), w(deltas))
-				}
-			}
-		}
+		rt.attribute(m, fmt.Sprintf("table %d line %d %q", c.Index, li, line), &o, prev, cur, add, w)
 		// aggregations: lower bound by steps, upper bound immediately (exact at the barrier below)
 		for i := range rt.aggs {
 			if o.AggIn[i] {
@@ -946,35 +985,14 @@ func runCase(res *mon.Result, c *tcase, st *stats) (ok bool) {
 	}
 
 	// ---- guard: every destination must still be offline (otherwise the hand-off counter is blind)
-	online := false
-	for i, mr := range m.Routes {
-		if rt.caps[i] != nil {
-			continue
-		}
-		if rr := t.GetRoute(mr.Key); rr != nil {
-			for _, d := range rr.Snapshot().Dests {
-				if d.Online {
-					online = true
-				}
-			}
-		}
-	}
+	online := rt.anyOnline(m)
 	st.tConc += time.Since(t0)
 	t0 = time.Now()
 	defer func() { st.tDown += time.Since(t0) }()
 	// ---- teardown
-	done := make(chan error, 1)
-	go func() { done <- t.Shutdown() }()
-	select {
-	case err := <-done:
-		if err != nil {
-			res.Inconclusive(fmt.Sprintf("table %d: Table.Shutdown: %v", c.Index, err))
-		}
-	case <-time.After(5 * time.Minute):
-		res.Inconclusive(fmt.Sprintf("table %d: Table.Shutdown() did not return within 5 minutes; stopping", c.Index))
+	if !shutdownTable(res, t, fmt.Sprintf("table %d", c.Index)) {
 		return false
 	}
-	releaseTable(t)
 	if online {
 		res.Inconclusive(fmt.Sprintf("table %d: a destination pointed at a refusing port reports online; %d observations of this table discarded", c.Index, len(vs)))
 		return true
@@ -983,6 +1001,41 @@ func runCase(res *mon.Result, c *tcase, st *stats) (ok bool) {
 		res.Violate(v.sig, v.msg, v.w)
 	}
 	st.tables++
+	return true
+}
+
+// anyOnline tells whether a destination of a carbon route reports online (the hand-off counter is blind then).
+func (rt *realTable) anyOnline(m *oracle.C01Table) bool {
+	online := false
+	for i, mr := range m.Routes {
+		if rt.caps[i] != nil {
+			continue
+		}
+		if rr := rt.t.GetRoute(mr.Key); rr != nil {
+			for _, d := range rr.Snapshot().Dests {
+				if d.Online {
+					online = true
+				}
+			}
+		}
+	}
+	return online
+}
+
+// shutdownTable shuts the table's routes down and empties it for the next case; false = stop the run.
+func shutdownTable(res *mon.Result, t *table.Table, label string) bool {
+	done := make(chan error, 1)
+	go func() { done <- t.Shutdown() }()
+	select {
+	case err := <-done:
+		if err != nil {
+			res.Inconclusive(fmt.Sprintf("%s: Table.Shutdown: %v", label, err))
+		}
+	case <-time.After(5 * time.Minute):
+		res.Inconclusive(fmt.Sprintf("%s: Table.Shutdown() did not return within 5 minutes; stopping", label))
+		return false
+	}
+	releaseTable(t)
 	return true
 }
 
@@ -1001,27 +1054,32 @@ func b2i(b bool) int64 {
 }
 
 func main() {
-	replayTable := -1
+	replayTable, replayRuntime := -1, -1
 	if p := os.Getenv("VERIF_REPLAY"); p != "" {
 		// a replay file names seed, tier and the table index; everything else is regenerated
 		var rp struct {
 			Seed   int64  `json:"seed"`
 			Tier   string `json:"tier"`
 			Replay struct {
-				Table *int `json:"table"`
+				Table   *int `json:"table"`
+				Runtime *int `json:"runtime_table"`
 			} `json:"replay"`
 		}
 		b, err := os.ReadFile(p)
-		if err != nil || json.Unmarshal(b, &rp) != nil || rp.Replay.Table == nil {
+		if err != nil || json.Unmarshal(b, &rp) != nil || (rp.Replay.Table == nil && rp.Replay.Runtime == nil) {
 			fmt.Println("C01: cannot use replay file", p)
 			os.Exit(2)
 		}
 		os.Setenv("VERIF_SEED", fmt.Sprint(rp.Seed))
 		os.Setenv("VERIF_TIER", rp.Tier)
-		replayTable = *rp.Replay.Table
+		if rp.Replay.Runtime != nil {
+			replayRuntime = *rp.Replay.Runtime
+		} else {
+			replayTable = *rp.Replay.Table
+		}
 	}
 	res := mon.NewResult("C01")
-	res.Rule = "tables generated from (seed,index): 0-4 blacklist entries, 0-3 rewriters (literal with max / regex / not-clause), 0-3 never-flushing aggregations (40% drop-raw), 1-6 routes (capture, sendAllMatch, sendFirstMatch, consistentHashing; 1-4 refusing destinations each), all six filter options over the alphabet a-f and '.'; lines over the same alphabet (a third seeded with the table's own filter material, 10% invalid); 60% of a table's lines dispatched one by one with exact per-line attribution, 40% from 8 concurrent dispatchers compared as multisets/totals; non-trivial = the line is accepted by >= 2 routes and rejected by >= 1 destination filter inside an accepting route; distinct = (table, routes accepting, per-destination expectation)"
+	res.Rule = "tables generated from (seed,index): 0-4 blacklist entries, 0-3 rewriters (literal with max / regex / not-clause), 0-3 never-flushing aggregations (40% drop-raw), 1-6 routes (capture, sendAllMatch, sendFirstMatch, consistentHashing; 1-4 refusing destinations each), all six filter options over the alphabet a-f and '.'; lines over the same alphabet (a third seeded with the table's own filter material, 10% invalid); 60% of a table's lines dispatched one by one with exact per-line attribution, 40% from 8 concurrent dispatchers compared as multisets/totals; non-trivial = the line is accepted by >= 2 routes and rejected by >= 1 destination filter inside an accepting route; distinct = (table, routes accepting, per-destination expectation); tables modified at run time: 2-4 routes (>= 1 sendFirstMatch; carbon routes mostly with 3-5 destinations with overlapping filters and a trailing catch-all), a sequence of UpdateRoute / UpdateDestination (options set or cleared to \"\"), DelDestination, route.Add, DelRoute, AddRoute, a batch of lines with exact per-line attribution after each operation against the model changed by the same operation; non-trivial there = a line that the routes before and after the last operation send to different places, distinct = (table, step, where it goes)"
 	res.Assume("validity of the generated lines is decided by the documentation-derived validator on classes it is confident about (validation itself is property C02)")
 	res.Assume("a destination whose address refuses connections, with spool=false, accounts for each line it is handed exactly once in action=drop.reason=conn_down_no_spool (checked by reading destination.relay); Table.Flush() orders that count before the harness reads it")
 	res.Assume("which destination of a consistentHashing route takes a line is property C15; here exactly one must")
@@ -1030,7 +1088,7 @@ func main() {
 	var st stats
 	only := replayTable
 	want := 0
-	for i := 0; i < n; i++ {
+	for i := 0; i < n && replayRuntime < 0; i++ {
 		if only >= 0 && i != only {
 			continue
 		}
@@ -1058,6 +1116,9 @@ func main() {
 	res.Count("ms_concurrent_phase", int(st.tConc/time.Millisecond))
 	res.Count("ms_teardown", int(st.tDown/time.Millisecond))
 	if only < 0 {
+		runRuntime(res, replayRuntime)
+	}
+	if only < 0 && replayRuntime < 0 {
 		runExtras(res)
 	}
 	res.Count("lines_dispatched", st.lines)
@@ -1076,7 +1137,7 @@ func main() {
 	res.Count("destination_filter_rejections", st.destRejected)
 	res.Count("firstmatch_lines_with_2plus_matching_destinations", st.firstMatchMulti)
 	res.Count("aggregation_inputs", st.aggIn)
-	if only < 0 {
+	if only < 0 && replayRuntime < 0 {
 		res.Floor("tables", st.tables, n)
 		per := mon.N(60, 200)
 		res.Floor("lines_dispatched", st.lines, n*per)
